@@ -10,7 +10,7 @@ pub fn gen_case(rng: &mut Rng) -> Vec<String> {
     let cap = match rng.below(4) { 0 => 0, 1 => 1, 2 => rng.range(2, 300), _ => 129 };
     let mut lines = vec![format!("new {cap}")];
     let mut used: Vec<u64> = Vec::new();
-    let mut id = |rng: &mut Rng, used: &Vec<u64>| -> u64 {
+    let id = |rng: &mut Rng, used: &Vec<u64>| -> u64 {
         if !used.is_empty() && rng.chance(1, 3) { return *rng.pick(used); }
         match style {
             0 => rng.below(12),
@@ -54,8 +54,8 @@ pub fn run_case(lines: &[String]) -> Vec<String> {
             "serde" => {
                 let json = serde_json::to_value(&m).unwrap();
                 let arr = json.as_array().expect("array");
-                let mut s = String::from("ser");
-                for x in arr { match x.as_u64() { Some(v) => write!(s, " {v}").unwrap(), None => s.push_str(" -") } }
+                let mut s = format!("ser {}", arr.len());
+                for (i, x) in arr.iter().enumerate() { if let Some(v) = x.as_u64() { write!(s, " {i}:{v}").unwrap() } }
                 m = serde_json::from_value(json).unwrap();
                 out.push(s);
             }
